@@ -1,11 +1,16 @@
 /-
-Model of `odl/space/npy_tensors.py::_lincomb_impl` (C01).
+Model of `odl/space/npy_tensors.py::_lincomb_impl` and `_blas_is_applicable` (C01).
 
 Buffers are identified by a `Nat` id; *identity* aliasing (`x1 is x2`, `out is x1`, …)
 is equality of ids, exactly the test the Python code performs.  A buffer's content is a
 functional array `Nat → K`; every primitive is entry-wise, so the array length only
-matters through the size regime.  The dispatch program itself (`Stmt`) is NOT written
-here: it is regenerated from the Python AST into `Gen/LincombTree.lean` on every run.
+matters through the size regime.  The dispatch program (`Stmt`), the thresholds, the
+fallback-axpy form, the zero guard and the BLAS applicability predicate are NOT written
+here: they are regenerated from the Python AST into `Gen/LincombTree.lean` on every run.
+
+Memory layout enters in exactly one place: in the BLAS regime the code works on
+`arr.ravel(order)`, which is a *view* of the array only if the array is contiguous in that
+order, and a *copy* otherwise — writes to a copy of `out.data` are lost.
 -/
 namespace OdlModel.Lincomb
 
@@ -47,6 +52,58 @@ inductive Stmt
   | zero                        -- out_arr[:] = 0
   | recurse
   deriving Repr
+
+/-! ### What `_blas_is_applicable` and `ravel` see of the arrays -/
+
+/-- NumPy contiguity flags of one array. -/
+structure Layout where
+  cContig : Bool
+  fContig : Bool
+  deriving Repr, DecidableEq
+
+/-- The facts about `(x1.data, x2.data, out.data)` that `_blas_is_applicable` tests. -/
+structure Desc where
+  l1 : Layout
+  l2 : Layout
+  lo : Layout
+  dtypesDiffer : Bool     -- any(x.dtype != args[0].dtype for x in args[1:])
+  dtypeNotBlas : Bool     -- any(x.dtype not in _BLAS_DTYPES for x in args)
+  tooBig : Bool           -- any(x.size > np.iinfo('int32').max for x in args)
+  deriving Repr, DecidableEq
+
+def Desc.allF (d : Desc) : Bool := d.l1.fContig && d.l2.fContig && d.lo.fContig
+def Desc.allC (d : Desc) : Bool := d.l1.cContig && d.l2.cContig && d.lo.cContig
+
+/-- Atoms and connectives of the `if/elif` tests of `_blas_is_applicable`. -/
+inductive BCond
+  | dtypesDiffer | dtypeNotBlas | allF | allC | tooBig
+  | not (c : BCond) | or (c d : BCond) | and (c d : BCond)
+  deriving Repr
+
+def BCond.eval (d : Desc) : BCond → Bool
+  | .dtypesDiffer => d.dtypesDiffer
+  | .dtypeNotBlas => d.dtypeNotBlas
+  | .allF => d.allF
+  | .allC => d.allC
+  | .tooBig => d.tooBig
+  | .not c => !(c.eval d)
+  | .or c e => c.eval d || e.eval d
+  | .and c e => c.eval d && e.eval d
+
+/-- `if c1: return r1 elif c2: return r2 … else: return r` -/
+inductive BTree
+  | ret (r : Bool)
+  | ite (c : BCond) (t e : BTree)
+  deriving Repr
+
+def BTree.eval (d : Desc) : BTree → Bool
+  | .ret r => r
+  | .ite c t e => if c.eval d then t.eval d else e.eval d
+
+/-- `ravel_order = 'F' if out.data.flags.f_contiguous else 'C'`;
+`out.data.ravel(order=ravel_order)` is a view iff `out.data` is contiguous in that order. -/
+def outRavelIsView (d : Desc) : Bool :=
+  if d.lo.fContig then d.lo.fContig else d.lo.cContig
 
 section
 variable {K : Type} [Add K] [Mul K] [OfNat K 0] [OfNat K 1] [DecidableEq K]
@@ -95,10 +152,17 @@ def exec (guarded : Bool) (self : Args → K → K → Mem K → Option (Mem K))
   | .zero, A, _, _, m => some (m.write A.out (fun _ => 0))
   | .recurse, A, a, b, m => self { A with x2 := A.x1 } (a + b) 0 m
 
-/-- The dispatch program with bounded recursion depth (`none` = depth exhausted). -/
-def run (guarded : Bool) (prog : Stmt) : Nat → Args → K → K → Mem K → Option (Mem K)
-  | 0 => fun _ _ _ _ => none
-  | f + 1 => exec guarded (run guarded prog f) prog
+/-- The primitive operations a statement executes, in order (the conditions do not depend
+on the memory): used by the driver to report which leaf of the dispatch ran. -/
+def Stmt.trace (A : Args) (a b : K) : Stmt → List String
+  | .skip => []
+  | .seq s t => s.trace A a b ++ t.trace A a b
+  | .ite c t e => if c.eval A a b then t.trace A a b else e.trace A a b
+  | .scal _ => ["scal"]
+  | .axpy _ _ => ["axpy"]
+  | .copy _ => ["copy"]
+  | .zero => ["zero"]
+  | .recurse => ["recurse"]
 
 inductive Regime | small | fallback | blas
   deriving Repr, DecidableEq
@@ -114,17 +178,35 @@ evaluated first). -/
 def direct (A : Args) (a b : K) (m : Mem K) : Mem K :=
   m.write A.out (fun i => a * m A.x1 i + b * m A.x2 i)
 
-/-- Whole `_lincomb_impl`. `fbGuard` is the guard flag extracted from `fallback_axpy`;
-`zeroGuard` says whether `if a == 0 and b == 0: out.data[:] = 0; return` precedes the regime
-selection (both extracted from the source). -/
-def lincombImpl (thrSmall thrMedium : Nat) (fbGuard : Bool) (zeroGuard : Bool) (prog : Stmt)
-    (size : Nat) (blasOk : Bool) (A : Args) (a b : K) (m : Mem K) : Option (Mem K) :=
-  if zeroGuard && decide (a = 0) && decide (b = 0) then some (m.write A.out (fun _ => 0))
-  else
-    match regime thrSmall thrMedium size blasOk with
-    | .small => some (direct A a b m)
-    | .fallback => run fbGuard prog 3 A a b m
-    | .blas => run false prog 3 A a b m
+/-- The extracted facts about `_lincomb_impl` that parameterise the model. -/
+structure Params where
+  thrSmall : Nat
+  thrMedium : Nat
+  fbGuard : Bool        -- `fallback_axpy` is guarded by `a != 0`
+  zeroGuard : Bool      -- `if a == 0 and b == 0: out.data[:] = 0; return` precedes the regimes
+  blasTree : BTree      -- `_blas_is_applicable`
+  prog : Stmt           -- the alias/scalar dispatch
+
+/-- Whole `_lincomb_impl(a, x1, b, x2, out)`, re-entered as a whole by the recursive call
+(`none` = recursion depth exhausted).  In the BLAS regime all work is done on
+`arr.ravel(order)`; if that is a copy of `out.data` the writes are lost. -/
+def lincombImplF (P : Params) (size : Nat) (d : Desc) :
+    Nat → Args → K → K → Mem K → Option (Mem K)
+  | 0 => fun _ _ _ _ => none
+  | f + 1 => fun A a b m =>
+    if P.zeroGuard && decide (a = 0) && decide (b = 0) then some (m.write A.out (fun _ => 0))
+    else
+      match regime P.thrSmall P.thrMedium size (P.blasTree.eval d) with
+      | .small => some (direct A a b m)
+      | .fallback => exec P.fbGuard (lincombImplF P size d f) P.prog A a b m
+      | .blas =>
+          match exec false (lincombImplF P size d f) P.prog A a b m with
+          | some m' => if outRavelIsView d then some m' else some m
+          | none => none
+
+def lincombImpl (P : Params) (size : Nat) (d : Desc) (A : Args) (a b : K) (m : Mem K) :
+    Option (Mem K) :=
+  lincombImplF P size d 3 A a b m
 
 end
 
